@@ -17,11 +17,15 @@
 (* (lexicographically, a proper prefix is smaller).  Fixed-width fields     *)
 (* (id, pubkey, created_at, kind) are one symbol each - their relative      *)
 (* order is all the scanner can observe - and strings (tag names, values)   *)
-(* are their UTF-8 bytes (Chars).  0 is the separator, 255 the 0xff the     *)
-(* scanner appends to a seek target, 238 the environment's sentinel key;    *)
-(* an id whose first byte is 0xff compares above a lone 0xff, so such ids   *)
-(* get symbols above 255 (IdSym).  Strings containing NUL are outside this  *)
-(* model (field positions would no longer align).                           *)
+(* are their UTF-8 bytes (Chars).  0 is the separator, 238 the              *)
+(* environment's sentinel key, 255 a lone 0xff (the created_at range scan   *)
+(* seeks to prefix + 0xff) and Top the 32 x 0xff the match scanner appends  *)
+(* to a seek target.  An id whose first byte is 0xff compares above a lone  *)
+(* 0xff, so such ids get symbols above 255 (IdSym) - with a lone 0xff as    *)
+(* seek target, as found, the scanner stepped over them at the upper time   *)
+(* bound (finding 20: a deletion kept a referenced event); SeekTop = 255    *)
+(* reproduces that.  Strings containing NUL are outside this model (field   *)
+(* positions would no longer align).                                        *)
 (*                                                                         *)
 (* One action per cursor operation group, so that TLC's state graph has one *)
 (* edge per branch of the code; `path` records the branch labels and is the *)
@@ -36,7 +40,9 @@ CONSTANTS Universe,   \* id symbol -> event record
           IdSym,      \* id symbol -> natural (order of the ids' bytes; > 255 iff the id starts with 0xff)
           Chars,      \* string -> sequence of 1..254 (its UTF-8 bytes)
           Stores,     \* the stores (sets of ids) to explore
-          Filters     \* the filters to explore
+          Filters,    \* the filters to explore
+          RangeInclusive, \* the created_at range scan includes both bounds (repaired) or, as found, excludes `since` and keeps one id at `until`
+          SeekTop     \* what next_match appends to its seek target: Top (32 x 0xff, repaired) or 255 (a lone 0xff, as found)
 
 VARIABLES store, flt,
           ks,        \* the keyspace of `store`, sorted (a function of store; kept in a variable so that it is computed once)
@@ -50,6 +56,7 @@ Q == INSTANCE Query
 ----------------------------------------------------------------------------
 (* byte order *)
 
+Top == 100000      \* sorts after every id symbol
 Less(a, b) == \E n \in 1..Len(b) : /\ \A m \in 1..(n - 1) : m <= Len(a) /\ a[m] = b[m]
                                    /\ (n > Len(a) \/ (n <= Len(a) /\ a[n] < b[n]))
 StartsWith(k, p) == Len(k) >= Len(p) /\ \A m \in 1..Len(p) : k[m] = p[m]
@@ -78,8 +85,32 @@ TsOfKey(k) == k[Len(k) - 2]
 (* cursor *)
 
 \* position of the first key >= t; 0 = not found (cursor unpositioned)
-SetRange(t) == LET ge == {p \in DOMAIN ks : ~Less(ks[p], t)} IN IF ge = {} THEN 0 ELSE SetMin(ge)
+SetRangeIn(ksq, t) == LET ge == {p \in DOMAIN ksq : ~Less(ksq[p], t)} IN IF ge = {} THEN 0 ELSE SetMin(ge)
+SetRange(t) == SetRangeIn(ks, t)
 KeyAt(p) == IF p = 0 THEN <<>> ELSE ks[p]
+
+----------------------------------------------------------------------------
+(* Index.scanner as a function: the yields of one walk over the sorted keyspace ksq for the compiled matches cm (largest
+   first) and optional bounds.  The machine below performs the same walk one branch per step (KS_FnAgrees); the writer's
+   transcription KvWrite.tla uses the function, as WriterThread._post_save uses the scanner. *)
+RECURSIVE ScanFrom(_, _, _, _, _, _, _)
+ScanFrom(ksq, cm, since, until, m, p, acc) ==
+    LET key == IF p = 0 THEN <<>> ELSE ksq[p]
+        addt == IF Has(until) THEN <<Val(until), 0>> ELSE <<>>
+        stop == cm[Len(cm)] \o (IF Has(since) THEN <<Val(since)>> ELSE <<>>)
+        off == \/ ~StartsWith(key, cm[m])
+               \/ (Has(since) /\ TsOfKey(key) < Val(since))
+               \/ (Has(until) /\ TsOfKey(key) > Val(until))
+    IN IF off THEN IF m = Len(cm) THEN acc
+                   ELSE LET landed == SetRangeIn(ksq, cm[m + 1] \o addt \o <<SeekTop>>) IN
+                        IF landed = 0 THEN acc ELSE ScanFrom(ksq, cm, since, until, m + 1, landed - 1, acc)
+       ELSE IF Less(key, stop) THEN acc
+       ELSE IF p - 1 = 0 THEN Append(acc, IdOfKey(key))
+       ELSE ScanFrom(ksq, cm, since, until, m, p - 1, Append(acc, IdOfKey(key)))
+ScanFn(ksq, cm, since, until) ==
+    LET addt == IF Has(until) THEN <<Val(until), 0>> ELSE <<>>
+        landed == SetRangeIn(ksq, cm[1] \o addt \o <<SeekTop>>) IN
+    ScanFrom(ksq, cm, since, until, 1, IF landed = 0 THEN 0 ELSE landed - 1, <<>>)
 
 ----------------------------------------------------------------------------
 (* planner *)
@@ -135,8 +166,8 @@ Plan == /\ pc = "plan"
            ELSE pc' = "open" /\ stage' = 1 /\ Lab("plan:" \o Chain(flt)[1][1] \o (IF Len(Chain(flt)) > 1 THEN "+" \o Chain(flt)[2][1] ELSE ""))
         /\ UNCHANGED <<store, flt, ks, allowed, pos, mi, ys, ordered, ans>>
 
-\* next_match(): seek to match + until + 0xff, step back if the seek found something
-NextMatch(m) == LET landed == SetRange(CM[m] \o AddTime \o <<255>>) IN
+\* next_match(): seek to match + until + 32 x 0xff, step back if the seek found something
+NextMatch(m) == LET landed == SetRange(CM[m] \o AddTime \o <<SeekTop>>) IN
                 [skipped |-> landed # 0, pos |-> IF landed # 0 THEN landed - 1 ELSE 0]
 
 Open == /\ pc = "open"
@@ -144,7 +175,7 @@ Open == /\ pc = "open"
                   /\ ys' = SelectSeq(Cur[2], LAMBDA i : i \in store /\ Allowed(i))
                   /\ pc' = "close" /\ Lab("ids") /\ UNCHANGED <<pos, mi>>
              [] Cur[1] = "created" ->
-                  /\ pos' = SetRange(IF Has(Until) THEN <<1, Val(Until), 0>> ELSE <<1, 255>>)
+                  /\ pos' = SetRange(IF Has(Until) THEN <<1, Val(Until), IF RangeInclusive THEN 255 ELSE 0>> ELSE <<1, 255>>)
                   /\ pc' = "range" /\ Lab(IF Has(Until) THEN "seek-until" ELSE "seek-end") /\ UNCHANGED <<mi, ys>>
              [] OTHER ->
                   /\ mi' = 1 /\ pos' = NextMatch(1).pos
@@ -171,7 +202,7 @@ Loop == /\ pc = "loop"
 \* the created_at range scan (no matches)
 Range1 == /\ pc = "range"
           /\ LET key == KeyAt(pos)
-                 stop == <<1>> \o (IF Has(Since) THEN <<Val(Since), 255>> ELSE <<>>) IN
+                 stop == <<1>> \o (IF Has(Since) THEN (IF RangeInclusive THEN <<Val(Since)>> ELSE <<Val(Since), 255>>) ELSE <<>>) IN
              IF pos # 0 /\ Less(stop, key) THEN
                  /\ ys' = IF key[1] = 1 THEN Append(ys, IdOfKey(key)) ELSE ys
                  /\ pos' = pos - 1
@@ -223,6 +254,17 @@ SingleWalk(f) == Len(Chain(f)) = 1 /\ (Chain(f)[1][1] \in {"created", "ids"} \/ 
 KS_NewestSingle == (Done /\ ~Refused(flt) /\ SingleWalk(flt) /\ Chain(flt)[1][1] # "ids") => Q!LimitOKG(store, Fs, ans, FALSE)
 \* as found (open findings lmdb-multivalue-scan-not-globally-newest and the unordered chained scan): does not hold
 KS_NewestAlways == (Done /\ ~Truncated) => Q!LimitOKG(store, Fs, ans, FALSE)
+\* every scan honours both time bounds inclusively, as NIP-01 asks.  The writer relies on it (its kind-5 path walks the
+\* author's index until created_at - 1 and must see every older own event), and so does C11: were the range scan and the
+\* index scans to treat the bounds differently, adding a condition to a time-only filter could add results.
+\* Holds with SeekTop = Top and RangeInclusive; as found, a lone 0xff missed an event at the upper bound whose id starts
+\* 0xff (finding 20) and the range scan excluded `since` and kept one id at `until` (finding 21).
+KS_WindowInclusive ==
+    (Done /\ ~Truncated /\ ~Refused(flt) /\ Len(ans) < Eff(flt)) =>
+        {i \in store : MatchesG(i, Ev(i), flt, FALSE, FALSE)} \subseteq ToSet(ans)
+\* the step-wise walk and the functional one agree
+KS_FnAgrees == (pc = "close" /\ Cur[1] \notin {"ids", "created"}) =>
+                   ys = SelectSeq(ScanFn(ks, CM, Since, Until), LAMBDA i : Allowed(i))
 \* the scanner hands the matcher a superset of the strict matches and the matcher decides: yields need not match
 KS_Terminates == <>Done
 =============================================================================
